@@ -28,10 +28,9 @@ THEOREMS = [
     "KrroodVerif.SG.collect_garbage_nil",
     "KrroodVerif.SG.C20_wf_run",
     "KrroodVerif.SG.C20_no_garbage_after_collect_run",
-    "KrroodVerif.SG.C20_no_garbage_run_partial",
+    "KrroodVerif.SG.C20_no_garbage_run",
     "KrroodVerif.SG.C20_cex_container_overwrite",
     "KrroodVerif.SG.C20_drop_all_clean",
-    "KrroodVerif.SG.C20_harness_schema_closed",
     "KrroodVerif.SG.C20_no_garbage_run_harness",
 ]
 MODEL_FUNCTION = ("SG.step / Heap.collect / Heap.roots / SG.sweep / SG.removeNode (Model/SymbolGraph.lean), looped by "
